@@ -220,6 +220,9 @@ func NewRendezvous() *Rendezvous {
 
 func (r *Rendezvous) Reset(need int) {
 	r.mu.Lock()
+	if r.arrived < r.need {
+		close(r.release) // whoever still waits for a meeting that will not happen goes on
+	}
 	r.need, r.arrived, r.release = need, 0, make(chan struct{})
 	r.mu.Unlock()
 	for len(r.Arrived) > 0 {
